@@ -11,6 +11,12 @@ import (
 // allows (dynamic apply). One sync under test, caches fresh.
 func PropC06(c *vs.Case, f Factory, kind string) error {
 	scn := GenScn(c, GenOpts{Kind: kind, AllowRolling: true, AllowUnknown: true})
+	if c.Prob(1, 4) {
+		// debug verbosity: the V(5) code paths (diff rendering etc.) run too
+		SetVerboseLogging(true)
+		defer SetVerboseLogging(false)
+		c.Class("verbose-logging")
+	}
 	scn.Prog.Ordered = false
 	// hooks sometimes echo status / system metadata back in their desired children;
 	// metacontroller must ignore both (no diff, no write)
